@@ -24,6 +24,7 @@ type replayFamily struct {
 
 var replayFamilies = map[string]replayFamily{
 	"escape": {"twig/escape", "escape_test.go", "TestStickvcReplayEscape"},
+	"parse":  {"parse", "parse_test.go", "TestStickvcReplayParse"},
 }
 
 type ReplayFile struct {
@@ -100,7 +101,29 @@ func writeReplay(e *Engine, pc *PropConfig, o *Obligation, header *Universe, dir
 		rf.Candidates = cands
 		cb, _ := json.Marshal(cands)
 		rf.Env = map[string]string{"STICKVC_CANDIDATES": string(cb), "STICKVC_SKIP": knownSkip(pc.ID)}
-		out, failed := runHarness(fam, rf.Env)
+		if pc.Replay == "parse" {
+			os.MkdirAll(dir, 0o755)
+			rf.Env["STICKVC_LAST"] = filepath.Join(dir, "last_input.txt")
+			wb, _ := json.Marshal(pc.Witnesses)
+			rf.Env["STICKVC_INPUTS"] = string(wb)
+		}
+		ck := pc.Replay + "|" + rf.Env["STICKVC_CANDIDATES"]
+		if pc.Replay == "parse" {
+			ck = pc.Replay // the enumeration dominates; one run per check
+		}
+		cached, have := harnessCache[ck]
+		if !have {
+			o2, f2 := runHarness(fam, rf.Env)
+			cached = harnessResult{o2, f2}
+			harnessCache[ck] = cached
+		}
+		out, failed := cached.out, cached.failed
+		if failed && !strings.Contains(out, "REPLAY-FAIL") && pc.Replay == "parse" {
+			// the test binary died: a panic in the tokeniser goroutine; the last input written identifies it
+			if lb, err := os.ReadFile(rf.Env["STICKVC_LAST"]); err == nil && strings.Contains(out, "panic:") {
+				out = fmt.Sprintf("REPLAY-FAIL class=parse/panic input=%q (process crashed: unrecoverable panic in the tokeniser goroutine)\n", string(lb)) + out
+			}
+		}
 		rf.TestOutput = truncate(firstFailLines(out, 12), 3000)
 		if failed && strings.Contains(out, "REPLAY-FAIL") {
 			confirmed = true
@@ -208,3 +231,10 @@ func firstFailLines(out string, n int) string {
 	}
 	return strings.Join(keep, "\n")
 }
+
+type harnessResult struct {
+	out    string
+	failed bool
+}
+
+var harnessCache = map[string]harnessResult{}
